@@ -84,7 +84,11 @@ class EvalA(TL.Eval):
 # ----------------------------------------------------------------------------------------
 def g_op_table(R, tier):
     pn = CL.pn()
-    d = pn.PendingAugAssign._op_dict
+    d = getattr(pn.PendingAugAssign, "_op_dict", None)
+    if not isinstance(d, dict):
+        R.ok("pending_nodes.PendingAugAssign._op_dict/absent", "structural",
+             "no operator table on the class: the method names are checked through get_result for all 13 operators (group augassign)")
+        return
     for op, name in pysem.INPLACE_NAME.items():
         R.check(f"pending_nodes.PendingAugAssign._op_dict/entry/{op.__name__}", d.get(op) == name,
                 f"{op.__name__}: real {d.get(op)!r}, data model {name!r}", backend="exhaustive-finite",
@@ -102,7 +106,7 @@ def g_tuple_list(R, tier):
             def run(c):
                 m = Machine(stubs=stubs(assign_auto_stub()))
                 nsp, G = CL.mk_nsp(), CL.mk_global()
-                self_ = CL.mk_pending(pn.PendingAssign, Opaque("stmt", ast.Assign), nsp, G)
+                self_ = CL.mk_pending(pn.PendingAssign, Opaque("stmt", ast.Assign), nsp, G, m=m)
                 if shape == "no-star":
                     elts = [CL.seg("E", non_starred_target)]
                 elif shape == "one-star":
@@ -114,8 +118,10 @@ def g_tuple_list(R, tier):
                             CL.seg("C", non_starred_target)]
                 target = tcls(elts=elts, ctx=ast.Store())
                 V = abstract_value()
+                n_before = sum(1 for e in c.trace if e and e[0] == "ol_name")
                 res = m.call_value(pn.PendingAssign.assign_tuple_list, self_, target, V)
-                return dict(res=res, elts=elts, V=V)
+                n_after = sum(1 for e in c.trace if e and e[0] == "ol_name")
+                return dict(res=res, elts=elts, V=V, fresh_range=(n_before, n_after))
             paths = explore(run)
             nm = f"{base}/{shape}/{tcls.__name__}"
             if not paths_or_undecided(R, nm + "/paths", paths):
@@ -153,7 +159,12 @@ def check_destructure(R, nm, sig, p, shape):
             return
         snap = tr[2][2]
         fresh = tr[2][1]
-        R.check(f"{nm}/temporary-is-fresh-reserved-name/{sig}", isinstance(fresh, tuple) and fresh[0] == "id" and "fresh" in fresh[1], repr(fresh))
+        lo, hi = v.get("fresh_range", (0, 1 << 30))
+        own = isinstance(fresh, tuple) and fresh[0] == "id" and any(f"(fresh {k} " in fresh[1] for k in range(lo, hi))
+        R.check(f"{nm}/temporary-is-fresh-for-this-call/{sig}", own,
+                f"the snapshot temporary {fresh!r} must come from an ol_name() call made by this invocation (calls {lo}..{hi - 1}): "
+                "nested patterns recurse through assign_auto and must not share it",
+                replay=dict(kind="destructure", shape=shape, what="nested"))
         # 2. every target receives the element Python gives it (Language Reference 7.2)
         L = z3.Int("L")
         elts = v["elts"]
@@ -236,7 +247,7 @@ def g_assign_auto(R, tier):
                 return Opaque(("r", h), ast.expr)
             st[f"oneliner.pending_nodes:PendingAssign.{h}"] = f
         m = Machine(stubs=stubs(st))
-        self_ = CL.mk_pending(pn.PendingAssign, Opaque("stmt", ast.Assign), CL.mk_nsp(), CL.mk_global())
+        self_ = CL.mk_pending(pn.PendingAssign, Opaque("stmt", ast.Assign), CL.mk_nsp(), CL.mk_global(), m=m)
         t = CL.src("target", ast.expr)
         V = abstract_value()
         res = m.call_value(pn.PendingAssign.assign_auto, self_, t, V)
@@ -269,7 +280,7 @@ def g_leaf_targets(R, tier):
     # ---- name
     def run_name(c):
         m = Machine(stubs=stubs())
-        self_ = CL.mk_pending(pn.PendingAssign, Opaque("stmt", ast.Assign), CL.mk_nsp(), CL.mk_global())
+        self_ = CL.mk_pending(pn.PendingAssign, Opaque("stmt", ast.Assign), CL.mk_nsp(), CL.mk_global(), m=m)
         t = ast.Name(id=Hole("x", "ident"), ctx=ast.Store())
         V = abstract_value()
         return dict(res=m.call_value(pn.PendingAssign.assign_name, self_, t, V))
@@ -280,7 +291,7 @@ def g_leaf_targets(R, tier):
     #      appears here as the abstract value V; order inside one statement is C07)
     def run_attr(c):
         m = Machine(stubs=stubs())
-        self_ = CL.mk_pending(pn.PendingAssign, Opaque("stmt", ast.Assign), CL.mk_nsp(), CL.mk_global())
+        self_ = CL.mk_pending(pn.PendingAssign, Opaque("stmt", ast.Assign), CL.mk_nsp(), CL.mk_global(), m=m)
         t = ast.Attribute(value=CL.src("obj"), attr=Hole("a", "ident"), ctx=ast.Store())
         V = abstract_value()
         return dict(res=m.call_value(pn.PendingAssign.assign_attribute, self_, t, V))
@@ -291,7 +302,7 @@ def g_leaf_targets(R, tier):
     for shape in ("index", "slice"):
         def run_sub(c):
             m = Machine(stubs=stubs())
-            self_ = CL.mk_pending(pn.PendingAssign, Opaque("stmt", ast.Assign), CL.mk_nsp(), CL.mk_global())
+            self_ = CL.mk_pending(pn.PendingAssign, Opaque("stmt", ast.Assign), CL.mk_nsp(), CL.mk_global(), m=m)
             if shape == "index":
                 sl = CL.src("idx", ast.expr, exclude=[ast.Slice])
             else:
@@ -360,7 +371,7 @@ def g_convert_slice(R, tier):
                             else:
                                 ok = ok and got is src_
                     R.check(name, ok, ast.dump(r) if isinstance(r, ast.AST) and not any(isinstance(x, Opaque) for x in getattr(r, "args", [])) else repr(getattr(r, "args", r)),
-                            replay=dict(kind="src", src="a = list(range(10))\na[2:8:2] = [0, 0, 0]\na[:3] = []\na[5:] = [9]\n", expect="same-globals"))
+                            replay=dict(kind="src", src="a = list(range(10))\na[2:8:2] = [0, 0, 0]\na[:3] = []\na[5:] = [9]\nb = list(range(10))\nb[::2] = 'abcde'\nb[:6:3] = [7, 7]\nb[1::4] += []\nc = list(range(6))\nc[::-1] = c[:]\nc[:] = c[1:]\n", expect="same-globals"))
 
 
 # ----------------------------------------------------------------------------------------
@@ -380,7 +391,7 @@ def g_get_result(R, tier):
                 node = ast.AnnAssign(target=non_starred_target("T0"), annotation=CL.src("ann"), value=CL.src("V"), simple=1)
             else:
                 node = ast.AnnAssign(target=non_starred_target("T0"), annotation=CL.src("ann"), value=None, simple=1)
-            self_ = CL.mk_pending(pn.PendingAssign, node, nsp, CL.mk_global())
+            self_ = CL.mk_pending(pn.PendingAssign, node, nsp, CL.mk_global(), m=m)
             return dict(res=m.call_value(pn.PendingAssign.get_result, self_), node=node)
         paths = explore(run)
         if not paths_or_undecided(R, f"{base}[{shape}]/paths", paths):
@@ -433,7 +444,7 @@ def g_augassign(R, tier):
                 else:
                     t = ast.Subscript(value=CL.src("obj"), slice=ast.Slice(lower=CL.src("lo"), upper=CL.src("up"), step=None), ctx=ast.Store())
                 node = ast.AugAssign(target=t, op=opcls(), value=CL.src("V"))
-                self_ = CL.mk_pending(pn.PendingAugAssign, node, nsp, CL.mk_global())
+                self_ = CL.mk_pending(pn.PendingAugAssign, node, nsp, CL.mk_global(), m=m)
                 return dict(res=m.call_value(pn.PendingAugAssign.get_result, self_))
             paths = explore(run)
             nm = f"{base}[{kind}]<{opcls.__name__}>"
